@@ -49,7 +49,7 @@ Definition rec_val (r : row) : val :=
     only for the single-table class *)
 Definition count_q (tables : list Z) (q : query) : query :=
   {| q_biotype := q_biotype q; q_seqid := q_seqid q; q_name := q_name q; q_strand := q_strand q;
-     q_attrs := None;
+     q_attrs := None; q_attrs_lit := q_attrs_lit q;
      q_on_aln := match tables with [1] => q_on_aln q | _ => None end;
      q_start := None; q_stop := None; q_partial := q_partial q |}.
 
@@ -62,9 +62,10 @@ Definition run_case (c : list Z * list op * list query) : val :=
              let rows := gq tables db q in
              VL [VL (map feat_val rows); VL (map rec_val rows); VZ (gc tables db (count_q tables q))]) qs).
 
-Definition mkq (bt sid nm st at_ : option str) (on : option bool) (qs qe : option Z) (p : bool) : query :=
-  {| q_biotype := bt; q_seqid := sid; q_name := nm; q_strand := st; q_attrs := at_;
+Definition mkql (lit : bool) (bt sid nm : qval) (st at_ : option str) (on : option bool) (qs qe : option Z) (p : bool) : query :=
+  {| q_biotype := bt; q_seqid := sid; q_name := nm; q_strand := st; q_attrs := at_; q_attrs_lit := lit;
      q_on_aln := on; q_start := qs; q_stop := qe; q_partial := p |}.
+Definition mkq := mkql false.
 
 (** count_distinct on the database a history produces *)
 Definition voostr (o : option (option str)) : val := match o with Some v => VL [vostr v] | None => VL [] end.
